@@ -14,10 +14,12 @@
 //!   is not newly in that topic's mesh after it; (iii) a GRAFT processed while the mesh already had
 //!   mesh_n_high members does not add the peer.
 //! * C29: at every behaviour-idle point, (some live connection of p whose handler was last told JoinedMesh)
-//!   <=> (p is in at least one mesh).
+//!   <=> (p is in at least one mesh). Peers hold 1..3 simultaneous connections to the node; single connections
+//!   (the oldest or a PRNG one) are closed from the node's side while the others stay.
 //! * C35: for a topic the node is not subscribed to, with flood_publish off: every peer in the fanout set
-//!   before a publish that is still connected, still subscribed and has a non-negative score is still in
-//!   the fanout set after it (no heartbeat in between).
+//!   before a publish that is still connected, still subscribed and whose score is not below the publish
+//!   threshold (the eligibility rule of `publish_peers`; thresholds fixed at gossip -10 / publish -50 /
+//!   graylist -80, application scores down to -60) is still in the fanout set after it (no heartbeat in between).
 //! Not judged: add_explicit_peer on a peer that is currently in a mesh (the workload never does it);
 //! GRAFTs from non-gossipsub peers.
 use std::{
@@ -42,6 +44,7 @@ use crate::{
 type G = gs::Behaviour<gs::IdentityTransform, gs::AllowAllSubscriptionFilter>;
 const TOPICS: [&str; 3] = ["t0", "t1", "t2"];
 const MAX_REMOTE_BACKOFF: u64 = 3600;
+const PUBLISH_THRESHOLD: f64 = -50.0;
 
 #[derive(Clone, Default)]
 struct Snap {
@@ -72,6 +75,8 @@ struct Mon {
     grafts_at_high: u64,
     ineligible_seen: u64,
     joined_left_events: u64,
+    single_closes: u64,
+    fanout_negative_eligible: u64,
 }
 
 impl Mon {
@@ -194,6 +199,8 @@ struct Out {
     grafts_at_high: u64,
     ineligible: u64,
     joined_left: u64,
+    single_closes: u64,
+    fanout_negative_eligible: u64,
     fanout_publishes: u64,
     quiescent: bool,
     peers: usize,
@@ -239,7 +246,8 @@ fn run_case(rng: &mut Rng) -> Out {
             for t in TOPICS {
                 params.topics.insert(gs::IdentTopic::new(t).hash(), gs::TopicScoreParams::default());
             }
-            g.with_peer_score(params, gs::PeerScoreThresholds::default()).expect("score params");
+            let thresholds = gs::PeerScoreThresholds { gossip_threshold: -10.0, publish_threshold: PUBLISH_THRESHOLD, graylist_threshold: -80.0, ..Default::default() };
+            g.with_peer_score(params, thresholds).expect("score params");
         }
         g
     });
@@ -340,7 +348,7 @@ fn run_case(rng: &mut Rng) -> Out {
         let k = 1 + rng.usize(n_peers);
         let pk = rig.peer(k);
         let t = TOPICS[rng.usize(3)];
-        let op = rng.weighted(&[14, 5, 12, 8, 8, 6, 10, 6, 4, 5, 3, 3, 6]);
+        let op = rng.weighted(&[14, 5, 12, 8, 8, 6, 10, 6, 4, 5, 3, 3, 6, 4, 4]);
         sig.push_u64(op as u64 * 16 + k as u64);
         let send = |rig: &mut Rig, mon: &Rc<RefCell<Mon>>, k: usize, rpc: Rpc| {
             let pk = rig.peer(k);
@@ -401,7 +409,7 @@ fn run_case(rng: &mut Rng) -> Out {
                 gs::verif::clock::advance(Duration::from_secs(d));
             }
             8 if scoring => {
-                let s = *rng.pick(&[-10.0f64, -1.0, 0.0, 5.0]);
+                let s = *rng.pick(&[-60.0f64, -20.0, -10.0, -1.0, 0.0, 5.0]);
                 describe = format!("set_application_score(p{k}, {s})");
                 mon.borrow_mut().observe(rig.gs(0), "before op");
                 rig.gs(0).set_application_score(&pk, s);
@@ -445,6 +453,38 @@ fn run_case(rng: &mut Rng) -> Out {
                     rig.raw_open_all(k);
                 }
             }
+            13 => {
+                // one more simultaneous connection between p{k} and the node (either direction)
+                let have = rig.raw[k].as_ref().map(|c| c.connections(&p0).len()).unwrap_or(0);
+                if (1..3).contains(&have) {
+                    let from_node = rng.bool();
+                    describe = format!("p{k}: additional connection ({})", if from_node { "dialed by the node" } else { "dialed by the peer" });
+                    if from_node { rig.connect(0, k) } else { rig.connect(k, 0) }
+                    rig.run(400_000, &mut sink);
+                } else {
+                    describe = "noop".into();
+                }
+            }
+            14 => {
+                // the node closes ONE of several connections to p{k}; everything in flight is processed first so
+                // that the ledger of sent RPCs stays aligned
+                rig.run(400_000, &mut sink);
+                drain(&mut rig, &mon);
+                let conns = live_conns(&rig.recorder(0).log.lock().unwrap()).remove(&pk).unwrap_or_default();
+                if conns.len() >= 2 {
+                    let c = if rng.bool() { conns[0] } else { conns[rng.usize(conns.len())] };
+                    describe = format!("node closes connection {c} of p{k} ({} of {}, oldest = {})", conns.iter().position(|x| *x == c).unwrap_or(0) + 1, conns.len(), conns[0]);
+                    rig.net.swarm(0).close_connection(c);
+                    rig.net.touch(0);
+                    rig.run(400_000, &mut sink);
+                    drain(&mut rig, &mon);
+                    rig.raw_open_all(k);
+                    rig.run(400_000, &mut sink);
+                    mon.borrow_mut().single_closes += 1;
+                } else {
+                    describe = "noop".into();
+                }
+            }
             _ => {
                 // publish on a topic (fanout when not subscribed)
                 describe = format!("local publish {t}");
@@ -458,7 +498,10 @@ fn run_case(rng: &mut Rng) -> Out {
                     fanout_publishes += 1;
                     let after: BTreeSet<PeerId> = rig.gs(0).verif_fanout(&th).into_iter().collect();
                     for p in &before {
-                        let eligible = snap.peers.get(p).map(|ts| ts.contains(t)).unwrap_or(false) && snap.score.get(p).map(|s| *s >= 0.0).unwrap_or(true) && !mon.borrow().explicit.contains(p);
+                        let eligible = snap.peers.get(p).map(|ts| ts.contains(t)).unwrap_or(false) && snap.score.get(p).map(|s| *s >= PUBLISH_THRESHOLD).unwrap_or(true) && !mon.borrow().explicit.contains(p);
+                        if eligible && snap.score.get(p).map(|s| *s < 0.0).unwrap_or(false) {
+                            mon.borrow_mut().fanout_negative_eligible += 1;
+                        }
                         if eligible && !after.contains(p) {
                             let mut mm = mon.borrow_mut();
                             let who = mm.name(p);
@@ -491,6 +534,8 @@ fn run_case(rng: &mut Rng) -> Out {
         grafts_at_high: mm.grafts_at_high,
         ineligible: mm.ineligible_seen + mm.backoff.len() as u64,
         joined_left: mm.joined_left_events,
+        single_closes: mm.single_closes,
+        fanout_negative_eligible: mm.fanout_negative_eligible,
         fanout_publishes,
         quiescent,
         peers: n_peers,
@@ -524,6 +569,8 @@ fn run_common(args: &Args, prop: &'static str) -> i32 {
         check.count("grafts_processed_at_mesh_n_high", o.grafts_at_high);
         check.count("joined_left_notifications", o.joined_left);
         check.count("fanout_publishes_checked", o.fanout_publishes);
+        check.count("fanout_members_with_negative_but_eligible_score", o.fanout_negative_eligible);
+        check.count("single_connection_closes_of_multi_connection_peers", o.single_closes);
         let wit: Value = json!({"case": case_idx, "raw_peers": o.peers, "trail": o.trail});
         for (p, s, w) in &o.viol {
             if *p == prop {
